@@ -156,7 +156,7 @@ def shrink_law(t, n, ps, law):
 
 def run(ctx):
     ok, why = ctx.proof_stage("Props.C25", ["shift_out_in", "shift_in_out", "subst_identity", "subst_shift_commute",
-                                             "fold_identity", "subst_wellkinded_no_panic"])
+                                             "fold_identity", "subst_wellkinded_no_panic", "shift_in_shift_in", "subst_shift_cancel"])
     core.build_harness(bins=["irbin"])
     r = ctx.rng
     nterms = ctx.n(500, 12000)
